@@ -36,7 +36,8 @@ RULE = ("explicit-state BFS: start states = every TaxonNamespace(...) constructo
         "the start bound x both case-sensitivity settings; from every visited state every operation of the alphabet "
         "(add_taxon new/member, new_taxon, new_taxa, add_taxa, require_taxon, remove_taxon member/non-member, "
         "remove_taxon_label, discard_taxon_label, del ns[i], sort x3, reverse, clear, relabel (cold/warm lower-case "
-        "cache), remove+re-add same object, clear+re-add same object, taxon_bitmask(member) [cache fill], set is_mutable / is_case_sensitive, "
+        "cache), the label-lookup menu as operations, sort/reverse/relabel preceded by all lookups on the same object, "
+        "remove+re-add same object, clear+re-add same object, taxon_bitmask(member) [cache fill], set is_mutable / is_case_sensitive, "
         "TaxonNamespace(ns), copy.copy, copy.deepcopy) with every argument choice (labels a/A/b incl. duplicates, "
         "every member index, is_case_sensitive None/True/False, first_match_only both) is applied to a fresh rebuild, "
         "up to the depth bound and <= max_members live members; a case = one transition (state, op) or one visited "
@@ -45,8 +46,15 @@ RULE = ("explicit-state BFS: start states = every TaxonNamespace(...) constructo
 ASSUMPTIONS = [
     "the namespace's state is exactly its fields _taxa, _taxon_accession_index_map, _accession_index_taxon_map, "
     "_taxon_bitmask_map, _current_accession_count, is_case_sensitive, is_mutable plus each member's label "
-    "(any other attribute appearing in __dict__ aborts the run as a harness error); states are rebuilt by "
-    "assigning these fields directly",
+    "and its two flags; states are rebuilt by assigning these fields directly.  Any other attribute found in the "
+    "__dict__ of the namespace or of a member Taxon (a later library version may add private fields) is carried "
+    "generically: encoded (Taxon -> member index, containers recursively, scalars as they are, anything else -> type "
+    "name) into the visited-state key and restored on rebuild; a value of an unencodable type cannot be restored "
+    "(counter states_with_unrestorable_unknown_fields) and is then only exercised through the compound operations "
+    "'[all lookups]; sort/reverse/relabel' on one live object",
+    "label lookups are also operations of the history (menu: get_taxon/has_taxon_label/get_taxa(first_match_only) x "
+    "{a, A} x {None, True, False}; findall/get_taxa/has_taxa_labels x a x {None, False}); on a library without "
+    "hidden lookup state they are self-loops",
     "Taxon objects that are not members carry no namespace state except through re-use of the same object, which is "
     "explored by the compound operations 'remove+add same object', 'clear+add same object' and 'read lower_cased_label, relabel' and by "
     "running the light observation suite on the live object after every transition",
@@ -102,19 +110,148 @@ def tup(x):
     return x
 
 
-def mkstate(cs, mut, counter, members):
-    return (bool(cs), bool(mut), int(counter), tuple((str(l), int(i), int(bool(c))) for l, i, c in members))
+def mkstate(cs, mut, counter, members, extra=()):
+    return (bool(cs), bool(mut), int(counter), tuple((str(l), int(i), int(bool(c))) for l, i, c in members), tup(extra))
+
+
+def norm_state(state):
+    """accepts the 4-field form of older replay files"""
+    state = tup(state)
+    if len(state) == 4:
+        state = state + (baseline_extra(),)
+    return state
 
 
 def pretty(state):
-    cs, mut, counter, members = state
-    return "cs=%s mutable=%s count=%d [%s]" % ("T" if cs else "F", "T" if mut else "F", counter,
-                                                ", ".join("%s@%d%s" % (l, i, "*" if c else "") for l, i, c in members))
+    cs, mut, counter, members = state[:4]
+    hid = hidden_items(state) if len(state) > 4 else []
+    return "cs=%s mutable=%s count=%d [%s]%s" % ("T" if cs else "F", "T" if mut else "F", counter,
+                                                  ", ".join("%s@%d%s" % (l, i, "*" if c else "") for l, i, c in members),
+                                                  "".join(" %s=%s" % (n, show_enc(e)) for n, e in hid))
+
+
+# -- state fields the harness does not know by name (added by a later library version) are
+#    carried generically: encoded into the visited-state key and restored on rebuild
+
+_TAGS = ("T", "NS", "dict", "list", "tuple", "set", "type")
+
+
+def enc(v, ns, pos):
+    if isinstance(v, Taxon):
+        return ("T", pos.get(id(v), -1), v._label)
+    if isinstance(v, TaxonNamespace):
+        return ("NS",)
+    if isinstance(v, dict):
+        items = [(enc(k, ns, pos), enc(x, ns, pos)) for k, x in v.items()]
+        return ("dict", tuple(sorted(items, key=lambda kv: repr(kv[0]))))
+    if isinstance(v, list):
+        return ("list", tuple(enc(x, ns, pos) for x in v))
+    if isinstance(v, tuple):
+        return ("tuple", tuple(enc(x, ns, pos) for x in v))
+    if isinstance(v, (set, frozenset)):
+        return ("set", tuple(sorted((enc(x, ns, pos) for x in v), key=repr)))
+    if v is None or isinstance(v, (str, int, float, bool)):
+        return v
+    return ("type", type(v).__name__)
+
+
+class _NotRestorable(Exception):
+    pass
+
+
+def dec(e, ns, taxa):
+    if isinstance(e, tuple) and e and e[0] in _TAGS:
+        tag = e[0]
+        if tag == "T":
+            return taxa[e[1]] if 0 <= e[1] < len(taxa) else Taxon(label=e[2])
+        if tag == "NS":
+            return ns
+        if tag == "dict":
+            return dict((dec(k, ns, taxa), dec(x, ns, taxa)) for k, x in e[1])
+        if tag == "list":
+            return [dec(x, ns, taxa) for x in e[1]]
+        if tag == "tuple":
+            return tuple(dec(x, ns, taxa) for x in e[1])
+        if tag == "set":
+            return set(dec(x, ns, taxa) for x in e[1])
+        raise _NotRestorable(e[1])
+    return e
+
+
+def _has_type_tag(e):
+    if isinstance(e, tuple) and e and e[0] in _TAGS:
+        if e[0] == "type":
+            return True
+        if e[0] in ("T", "NS"):
+            return False
+        if e[0] == "dict":
+            return any(_has_type_tag(k) or _has_type_tag(x) for k, x in e[1])
+        return any(_has_type_tag(x) for x in e[1])
+    return False
+
+
+def show_enc(e):
+    if isinstance(e, tuple) and e and e[0] in _TAGS:
+        tag = e[0]
+        if tag == "T":
+            return "<member %d %r>" % (e[1], e[2]) if e[1] >= 0 else "<non-member %r>" % (e[2],)
+        if tag == "NS":
+            return "<ns>"
+        if tag == "dict":
+            return "{%s}" % ", ".join("%s: %s" % (show_enc(k), show_enc(x)) for k, x in e[1])
+        if tag == "type":
+            return "<%s>" % e[1]
+        return "%s(%s)" % (tag, ", ".join(show_enc(x) for x in e[1]))
+    return repr(e)
+
+
+_BASELINE = []
+
+
+def baseline_extra():
+    """unknown fields of a freshly constructed empty namespace"""
+    if not _BASELINE:
+        _BASELINE.append(snapshot(TaxonNamespace())[0][4])
+    return _BASELINE[0]
+
+
+_TAXON_BASELINE = []
+
+
+def taxon_baseline():
+    """unknown fields of a freshly constructed Taxon"""
+    if not _TAXON_BASELINE:
+        t = Taxon(label="x")
+        _TAXON_BASELINE.append(dict((n, enc(t.__dict__[n], None, {})) for n in set(t.__dict__) - KNOWN_TAXON_FIELDS))
+    return _TAXON_BASELINE[0]
+
+
+def hidden_items(state):
+    """unknown fields whose value differs from that in a fresh namespace / fresh Taxon"""
+    base = dict(baseline_extra())
+    tb = taxon_baseline()
+    out = []
+    for n, e in state[4]:
+        if n.startswith("taxon["):
+            if tb.get(n.split("].", 1)[1], ("absent",)) != e:
+                out.append((n, e))
+        elif base.get(n, ("absent",)) != e:
+            out.append((n, e))
+    return out
+
+
+def hidden_names(state):
+    return sorted(set(("Taxon." + n.split("].", 1)[1]) if n.startswith("taxon[") else n for n, _e in hidden_items(state)))
+
+
+def strip_hidden(state):
+    return state[:4] + (baseline_extra(),)
 
 
 def build(state):
-    """Fresh real namespace from a snapshot, by assigning the primitive fields."""
-    cs, mut, counter, members = state
+    """Fresh real namespace from a snapshot, by assigning the primitive fields (and, generically,
+    any field the harness does not know by name)."""
+    cs, mut, counter, members = state[:4]
     ns = TaxonNamespace(is_case_sensitive=bool(cs))
     taxa = []
     for label, idx, cached in members:
@@ -127,25 +264,34 @@ def build(state):
         taxa.append(t)
     ns._current_accession_count = counter
     ns.is_mutable = bool(mut)
+    for name, e in (state[4] if len(state) > 4 else ()):
+        try:
+            v = dec(e, ns, taxa)
+        except _NotRestorable:
+            continue        # stays as the constructor left it; see ASSUMPTIONS
+        if name.startswith("taxon["):
+            i, field = name[6:].split("].", 1)
+            if int(i) < len(taxa):
+                taxa[int(i)].__dict__[field] = v
+        else:
+            ns.__dict__[name] = v
     return ns, taxa
-
-
-class HarnessAssumptionBroken(Exception):
-    pass
 
 
 def snapshot(ns):
     """(state, problems).  Reads the primitive fields only."""
-    extra = set(ns.__dict__) - KNOWN_NS_FIELDS
-    if extra:
-        raise HarnessAssumptionBroken("TaxonNamespace has state fields unknown to the harness: %s" % sorted(extra))
     problems = []
     members = []
     seen = set()
-    for t in ns._taxa:
-        extra = set(t.__dict__) - KNOWN_TAXON_FIELDS
-        if extra:
-            raise HarnessAssumptionBroken("Taxon has state fields unknown to the harness: %s" % sorted(extra))
+    pos = {}
+    for i, t in enumerate(ns._taxa):
+        pos.setdefault(id(t), i)
+    extra = []
+    for name in sorted(set(ns.__dict__) - KNOWN_NS_FIELDS):
+        extra.append((name, enc(ns.__dict__[name], ns, pos)))
+    for i, t in enumerate(ns._taxa):
+        for name in sorted(set(t.__dict__) - KNOWN_TAXON_FIELDS):
+            extra.append(("taxon[%d].%s" % (i, name), enc(t.__dict__[name], ns, pos)))
         if id(t) in seen:
             problems.append("member listed twice")
         seen.add(id(t))
@@ -163,7 +309,7 @@ def snapshot(ns):
         problems.append("flags are not booleans")
     if problems:
         return None, problems
-    return mkstate(ns.is_case_sensitive, ns.is_mutable, ns._current_accession_count, members), problems
+    return mkstate(ns.is_case_sensitive, ns.is_mutable, ns._current_accession_count, members, extra), problems
 
 
 # ---------------------------------------------------------------------------
@@ -187,7 +333,7 @@ def scan(labels, q, cs):
 def model(state, op):
     """Expected effect of op on state.  after = list of int (old member i keeps its place in the
     result) | ("new", label, slot) | ("re", i); None = 'any sorted permutation'."""
-    cs, mut, counter, members = state
+    cs, mut, counter, members = state[:4]
     labels = [m[0] for m in members]
     k = len(members)
     cur = list(range(k))
@@ -264,7 +410,7 @@ def model(state, op):
         else:
             out["after"] = rest
             out["exc"] = "immutable"
-    elif kind in ("relabel", "copy", "set_mutable", "set_cs", "touch"):
+    elif kind in ("relabel", "copy", "set_mutable", "set_cs", "touch", "lookup"):
         pass
     else:
         raise ValueError("unknown op %r" % (op,))
@@ -277,7 +423,7 @@ def expected_size(state, op):
 
 
 def enabled_ops(state, b):
-    cs, mut, counter, members = state
+    cs, mut, counter, members = state[:4]
     k = len(members)
     L = b["labels"]
     ops = []
@@ -317,8 +463,11 @@ def enabled_ops(state, b):
                 ops.append(("remove_label", l, c, fmo))
                 ops.append(("discard_label", l, c, fmo))
     for v in ("default", "reverse", "key_lower"):
-        ops.append(("sort", v))
-    ops.append(("reverse",))
+        ops.append(("sort", v, 0))
+        ops.append(("sort", v, 1))      # 1 = preceded by the label lookups on the same live object
+    ops.append(("reverse", 0))
+    ops.append(("reverse", 1))
+    ops.extend(LOOKUP_OPS)
     ops.append(("clear",))
     for how in ("ctor", "copy", "deepcopy"):
         ops.append(("copy", how))
@@ -326,6 +475,39 @@ def enabled_ops(state, b):
     ops.append(("set_cs", int(not cs)))
     cap = b["max_members"]
     return [op for op in ops if expected_size(state, op) <= cap]
+
+
+# label lookups as operations of the history (they may change state the harness does not know
+# by name); small menu: first-match APIs x {a, A} x {None, True, False}, all-match APIs x a x {None, False}
+LOOKUP_OPS = [("lookup", api, l, c) for api in ("get_taxon", "has_taxon_label", "get_taxa_first")
+              for l in ("a", "A") for c in CS3] + \
+             [("lookup", api, "a", c) for api in ("findall", "get_taxa_all", "has_taxa_labels") for c in ("N", "F")]
+
+
+def is_warm(op):
+    k = op[0]
+    if k == "sort":
+        return len(op) > 2 and bool(op[2])
+    if k == "reverse":
+        return len(op) > 1 and bool(op[1])
+    if k == "relabel":
+        return bool(op[3])
+    return False
+
+
+def warm_lookups(ns):
+    """every lookup API once per label x case rule; results are not judged here"""
+    for l in LABELS:
+        for c in CS3:
+            kw = {"is_case_sensitive": CSVAL[c]}
+            try:
+                ns.get_taxon(l, **kw)
+                ns.has_taxon_label(l, **kw)
+                ns.get_taxa([l], first_match_only=True, **kw)
+                ns.findall(l, **kw)
+                ns.has_taxa_labels([l], **kw)
+            except Exception:
+                pass
 
 
 SITE = {
@@ -344,6 +526,10 @@ def site(op):
                                            bool(op[3]))
     if k == "copy":
         return {"ctor": "TaxonNamespace(ns)", "copy": "copy.copy", "deepcopy": "copy.deepcopy"}[op[1]]
+    if k == "lookup":
+        return {"get_taxa_first": "get_taxa", "get_taxa_all": "get_taxa"}.get(op[1], op[1])
+    if is_warm(op):
+        return "lookups+" + SITE[k]
     return SITE[k]
 
 
@@ -374,11 +560,17 @@ def opstr(op):
     if k in ("remove_label", "discard_label"):
         return "ns.%s(%r%s, first_match_only=%s)" % ("remove_taxon_label" if k == "remove_label" else "discard_taxon_label",
                                                      op[1], cs(op[2]), bool(op[3]))
+    W = "[every lookup API x a/A/b x case rule]; " if is_warm(op) else ""
     if k == "sort":
-        return {"default": "ns.sort()", "reverse": "ns.sort(reverse=True)",
-                "key_lower": "ns.sort(key=lambda t: t.label.lower())"}[op[1]]
+        return W + {"default": "ns.sort()", "reverse": "ns.sort(reverse=True)",
+                    "key_lower": "ns.sort(key=lambda t: t.label.lower())"}[op[1]]
     if k == "reverse":
-        return "ns.reverse()"
+        return W + "ns.reverse()"
+    if k == "lookup":
+        call = {"get_taxon": "get_taxon(%r%s)", "has_taxon_label": "has_taxon_label(%r%s)", "findall": "findall(%r%s)",
+                "get_taxa_first": "get_taxa([%r]%s, first_match_only=True)", "get_taxa_all": "get_taxa([%r]%s)",
+                "has_taxa_labels": "has_taxa_labels([%r]%s)"}[op[1]]
+        return "ns." + call % (op[2], cs(op[3]))
     if k == "clear":
         return "ns.clear()"
     if k == "readd":
@@ -386,7 +578,7 @@ def opstr(op):
     if k == "clear_readd":
         return "t=ns[%d]; ns.clear(); ns.add_taxon(t)" % op[1]
     if k == "relabel":
-        return "%sns[%d].label = %r" % ("ns[%d].lower_cased_label; " % op[1] if op[3] else "", op[1], op[2])
+        return "%sns[%d].label = %r" % (W + "ns[%d].lower_cased_label; " % op[1] if op[3] else "", op[1], op[2])
     if k == "copy":
         return {"ctor": "ns = TaxonNamespace(ns)", "copy": "ns = copy.copy(ns)", "deepcopy": "ns = copy.deepcopy(ns)"}[op[1]]
     if k == "set_mutable":
@@ -452,6 +644,24 @@ def do(op, ns, old, args):
         return ns.remove_taxon_label(op[1], is_case_sensitive=CSVAL[op[2]], first_match_only=bool(op[3]))
     if k == "discard_label":
         return ns.discard_taxon_label(op[1], is_case_sensitive=CSVAL[op[2]], first_match_only=bool(op[3]))
+    if is_warm(op):
+        warm_lookups(ns)
+    if k == "lookup":
+        kw = {"is_case_sensitive": CSVAL[op[3]]}
+        api = op[1]
+        if api == "get_taxon":
+            return ns.get_taxon(op[2], **kw)
+        if api == "has_taxon_label":
+            return ns.has_taxon_label(op[2], **kw)
+        if api == "findall":
+            return ns.findall(op[2], **kw)
+        if api == "get_taxa_first":
+            return ns.get_taxa([op[2]], first_match_only=True, **kw)
+        if api == "get_taxa_all":
+            return ns.get_taxa([op[2]], first_match_only=False, **kw)
+        if api == "has_taxa_labels":
+            return ns.has_taxa_labels([op[2]], **kw)
+        raise ValueError(api)
     if k == "sort":
         if op[1] == "default":
             return ns.sort()
@@ -501,9 +711,9 @@ def single_bit(b):
     return isinstance(b, int) and b > 0 and (b & (b - 1)) == 0
 
 
-def _light(ns, live, bits, ns_cs):
+def _light(ns, live, bits, ns_cs, first_match=False):
     """Cheap observation suite: full-set and singleton round trips, all_taxa_bitmask, findall for
-    every label x case rule.  Returns [(signature, message)] of failed observations (signatures
+    every label x case rule (with first_match: also the first-match lookups).  Returns [(signature, message)] of failed observations (signatures
     are the same as those of the full suite in check_state)."""
     fails = []
     want = 0
@@ -552,21 +762,48 @@ def _light(ns, live, bits, ns_cs):
                               "findall(%r, is_case_sensitive=%s) on labels %s (namespace is_case_sensitive=%s) returned %s, linear scan gives %s" % (
                                   q, CSVAL[c], labels, ns_cs, [t._label for t in got] if isinstance(got, list) else got,
                                   [t._label for t in wantl])))
+            if first_match:
+                feature = "case-sensitive" if e else "case-insensitive"
+                first = wantl[0] if wantl else None
+                try:
+                    got = ns.get_taxon(q, is_case_sensitive=CSVAL[c])
+                    if got is not first:
+                        fails.append(("get_taxon|wrong-result|%s" % feature, "get_taxon(%r, is_case_sensitive=%s) on labels %s returned %s, first match is %s" % (
+                            q, CSVAL[c], labels, _where(got, live), _where(first, live))))
+                    got = ns.get_taxa([q], is_case_sensitive=CSVAL[c], first_match_only=True)
+                    if not isinstance(got, list) or len(got) != len(wantl[:1]) or any(x is not y for x, y in zip(got, wantl[:1])):
+                        fails.append(("get_taxa|wrong-result|%s" % feature, "get_taxa([%r], is_case_sensitive=%s, first_match_only=True) on labels %s returned %s, first match is %s" % (
+                            q, CSVAL[c], labels, [_where(x, live) for x in got] if isinstance(got, list) else got, _where(first, live))))
+                    got = ns.has_taxon_label(q, is_case_sensitive=CSVAL[c])
+                    if got is not bool(wantl):
+                        fails.append(("has_taxon_label|wrong-result|%s" % feature, "has_taxon_label(%r, is_case_sensitive=%s)=%r over %s" % (q, CSVAL[c], got, labels)))
+                except Exception as ex:
+                    fails.append(("lookup|exception:%s" % type(ex).__name__, "first-match lookup of %r raised %r" % (q, ex)))
+                    return fails
     return fails
 
 
-def light_observations(sig_site, ns, live, bits, ns_cs, V, succ=None):
+def _where(t, live):
+    if t is None:
+        return None
+    for i, x in enumerate(live):
+        if x is t:
+            return "member %d (%r)" % (i, x._label)
+    return "non-member %r" % (getattr(t, "_label", t),)
+
+
+def light_observations(sig_site, ns, live, bits, ns_cs, V, succ=None, first_match=False):
     """Run the cheap suite on the live object an operation has just been applied to.  An observation
-    that also fails on a fresh rebuild of the same snapshot is a defect of the observer and keeps
-    its plain signature; one that fails only on the live object was caused by the operation (state
-    outside the snapshot) and is reported as '<observer signature>|after:<operation>'."""
-    fails = _light(ns, live, bits, ns_cs)
+    that also fails on a fresh rebuild of the same snapshot (without any state the harness does not
+    know by name) is a defect of the observer and keeps its plain signature; one that fails only on
+    the live object was caused by the operation and is reported as '<observer signature>|after:<operation>'."""
+    fails = _light(ns, live, bits, ns_cs, first_match)
     if not fails:
         return
     base = None
     if succ is not None:
-        ns2, live2 = build(succ)
-        base = set(sig for sig, _m in _light(ns2, live2, [1 << m[1] for m in succ[3]], succ[0]))
+        ns2, live2 = build(strip_hidden(succ))
+        base = set(sig for sig, _m in _light(ns2, live2, [1 << m[1] for m in succ[3]], succ[0], first_match))
     for sig, msg in fails:
         if base is not None and sig in base:
             V(sig, msg)
@@ -574,11 +811,78 @@ def light_observations(sig_site, ns, live, bits, ns_cs, V, succ=None):
             V("%s|after:%s" % (sig, sig_site), msg)
 
 
+def check_lookup(state, op, ctx):
+    """A label lookup as an operation of the history: judged by the linear scan, must not change
+    membership or bits; the successor differs from the state only in fields the harness does not
+    know by name (if the library keeps any)."""
+    case = {"kind": "trans", "state": state, "op": op, "py": opstr(op), "pre": pretty(state)}
+
+    def V(sig, msg):
+        ctx.violation(sig, "%s   [state %s; op %s]" % (msg, pretty(state), opstr(op)), case)
+
+    cs, mut, counter, members = state[:4]
+    ns, live = build(state)
+    labels = [m[0] for m in members]
+    _k, api, q, c = op
+    e = eff_cs(c, cs)
+    feature = "case-sensitive" if e else "case-insensitive"
+    hit = [live[i] for i in scan(labels, q, e)]
+    st, val = _run(lambda: do(op, ns, live, {}))
+    if st == "hang":
+        V("%s|hang" % site(op), "step budget exceeded at %s" % (val,))
+        return None
+    if st == "exc":
+        V("lookup|exception:%s" % type(val).__name__, "%s raised %r" % (opstr(op), val))
+        return None
+    if api == "get_taxon":
+        good = val is (hit[0] if hit else None)
+    elif api in ("has_taxon_label", "has_taxa_labels"):
+        good = val is bool(hit)
+    else:
+        want = hit[:1] if api == "get_taxa_first" else hit
+        good = isinstance(val, list) and len(val) == len(want) and all(x is y for x, y in zip(val, want))
+    if not good:
+        shown = [_where(x, live) for x in val] if isinstance(val, list) else (_where(val, live) if isinstance(val, Taxon) else val)
+        V("%s|wrong-result|%s" % (site(op), feature), "%s over labels %s returned %s; linear scan: matches are %s" % (
+            opstr(op), labels, shown, [_where(x, live) for x in hit]))
+    succ, probs = snapshot(ns)
+    if succ is None or succ[:3] != state[:3] or [m[:2] for m in succ[3]] != [m[:2] for m in members] or \
+            any(a is not b2 for a, b2 in zip(ns._taxa, live)):
+        V("observation|changed-state", "a read-only call changed the namespace: %s" % (probs or pretty(succ),))
+        return None
+    return succ
+
+
+def judged(fn, state, ctx):
+    """Run fn(state, ctx).  If the state carries fields the harness does not know by name whose value
+    differs from a fresh namespace's, a violation that does not also occur on the same state without
+    them is reported as '<signature>|hidden-state:<field names>'."""
+    hid = hidden_names(state)
+    if not hid:
+        return fn(state, ctx)
+    from mc.runner import Ctx
+    sub = Ctx()
+    r = fn(state, sub)
+    if sub.viol:
+        base = Ctx()
+        fn(strip_hidden(state), base)
+        for sig, ent in sub.viol.items():
+            sig2 = sig if (sig in base.viol or "|after:" in sig) else "%s|hidden-state:%s" % (sig, ",".join(hid))
+            for v in ent["first"]:
+                ctx.violation(sig2, v["message"], v["case"])
+            ctx.viol[sig2]["count"] += ent["count"] - len(ent["first"])
+        sub.viol = {}
+    ctx.merge(sub)
+    return r
+
+
 def check_transition(state, op, ctx):
     """Apply op to a fresh rebuild of state; compare with the model; returns the successor
     state (or None when the transition violated the model / has no representable result)."""
-    state = tup(state)
+    state = norm_state(state)
     op = tup(op)
+    if op[0] == "lookup":
+        return check_lookup(state, op, ctx)
     case = {"kind": "trans", "state": state, "op": op, "py": opstr(op), "pre": pretty(state)}
     s_site = site(op)
     bad = [False]
@@ -592,7 +896,7 @@ def check_transition(state, op, ctx):
     def Vobs(sig, msg):
         V(sig, msg, fatal=False)
 
-    cs, mut, counter, members = state
+    cs, mut, counter, members = state[:4]
     ns, old = build(state)
     old_bits = [1 << m[1] for m in members]
     exp = model(state, op)
@@ -715,7 +1019,7 @@ def check_transition(state, op, ctx):
     #    invalidate the state itself, so the successor is still explored)
     if bad[0]:
         return None
-    light_observations(s_site, target, live, bits, target.is_case_sensitive, Vobs, succ)
+    light_observations(s_site, target, live, bits, target.is_case_sensitive, Vobs, succ, first_match=is_warm(op))
     if succ is None:
         V("%s|inconsistent-internal-maps" % s_site, "; ".join(probs))
         return None
@@ -757,13 +1061,13 @@ _LABEL_LISTS = [()] + [(x,) for x in LIST_LABELS] + [(x, y) for x in LIST_LABELS
 
 
 def check_state(state, ctx):
-    state = tup(state)
+    state = norm_state(state)
     case = {"kind": "state", "state": state, "pre": pretty(state)}
 
     def V(sig, msg):
         ctx.violation(sig, "%s   [state %s]" % (msg, pretty(state)), case)
 
-    cs, mut, counter, members = state
+    cs, mut, counter, members = state[:4]
     ns, live = build(state)
     k = len(live)
     labels = [m[0] for m in members]
@@ -997,14 +1301,23 @@ def _expand_state(state, b, expand, ctx, out, seen_local, pidx):
         ctx.count("states_with_case_variant_labels")
     if not state[1]:
         ctx.count("states_immutable")
-    check_state(state, ctx)
+    # fields of TaxonNamespace / Taxon the harness does not know by name (carried generically)
+    ctx.maximum("unknown_namespace_fields_seen", len(set(n for n, _e in state[4] if not n.startswith("taxon["))))
+    ctx.maximum("unknown_taxon_fields_seen", len(set(n.split("].", 1)[1] for n, _e in state[4] if n.startswith("taxon["))))
+    if hidden_names(state):
+        ctx.count("states_with_nondefault_unknown_fields")
+    if any(_has_type_tag(e) for _n, e in state[4]):
+        ctx.count("states_with_unrestorable_unknown_fields")
+    judged(check_state, state, ctx)
     if not expand:
         return
     ops = enabled_ops(state, b)
     for op in ops:
         ctx.case(("t", state, op), nontrivial=len(state[3]) >= 2)
         ctx.count("transitions")
-        succ = check_transition(state, op, ctx)
+        if op[0] == "lookup":
+            ctx.count("lookup_transitions")
+        succ = judged(lambda st_, c_: check_transition(st_, op, c_), state, ctx)
         if succ is None:
             ctx.count("transitions_without_successor")
             continue
@@ -1111,9 +1424,10 @@ def history(parent, state):
 def replay(case, ctx):
     k = case.get("kind")
     if k == "state":
-        check_state(tup(case["state"]), ctx)
+        judged(check_state, norm_state(case["state"]), ctx)
     elif k == "trans":
-        check_transition(tup(case["state"]), tup(case["op"]), ctx)
+        op = tup(case["op"])
+        judged(lambda st_, c_: check_transition(st_, op, c_), norm_state(case["state"]), ctx)
     elif k == "ctor":
         check_ctor(tup(case["op"]), ctx)
     else:
